@@ -738,7 +738,6 @@ class MessageManager(ClientLike):
             data = cd.MDF_MESSAGE_TRAFFIC()
             now = time.perf_counter()
             sub_seqno = 1
-            nsent = 0
             i = -1
             for n, (mt, count) in enumerate(self.traffic_counter.items()):
                 data.seqno = self.traffic_seqno
@@ -750,17 +749,18 @@ class MessageManager(ClientLike):
                 data.msg_type[i] = mt
                 data.msg_count[i] = count
 
-                if (n % cd.MESSAGE_TRAFFIC_SIZE) == 0:
-                    nsent = n
+                # Send when the sub-message is full
+                if i == cd.MESSAGE_TRAFFIC_SIZE - 1:
                     self.send_message(data)
                     sub_seqno += 1
+                    i = -1
 
             # Send any remaining
             if i >= 0:
-                i += 1
-                if nsent < len(self.traffic_counter):
-                    data.msg_type[i:] = [-1 for _ in range(cd.MESSAGE_TRAFFIC_SIZE - i)]
-                    self.send_message(data)
+                for k in range(i + 1, cd.MESSAGE_TRAFFIC_SIZE):
+                    data.msg_type[k] = -1
+                    data.msg_count[k] = 0
+                self.send_message(data)
 
         self.traffic_counter.clear()
         self.traffic_start = now
